@@ -218,7 +218,7 @@ theorem withdraw_seq (s : Net) (a : Node) (hc : a < s.n ∧ (s.nodes a).locals.a
 
 theorem replay_seq (s : Net) (a b : Node) (ord : List RFrame) (hc : a < s.n ∧ b < s.n ∧ linked s a b = true) :
     ((step s (.replay a b ord)).nodes a).seq =
-      (s.nodes a).seq + (replayAdvs a b (s.nodes a) ord).length := by
+      (s.nodes a).seq + (replayAdvs (hopCap s.maxHops) a b (s.nodes a) ord).length := by
   simp only [step, stepCore]
   have hc' : a < (tick s).n ∧ b < (tick s).n ∧ linked (tick s) a b = true := hc
   rw [if_pos hc']
@@ -234,7 +234,7 @@ theorem seqInv_step {s : Net} {op : Op} (hI : SeqInv s) (hb : benignOp s op = tr
       have h := mem_announceAdvs hadv
       rw [h.origin, hop, announce_seq s f.src hint ha]
       exact h.seq_le
-    | fwd a m hm hl ha hb' hd hne hns hself hseen hsb hlim hadv =>
+    | fwd a m hm hl ha hb' hd hne hns hself hseen hsb hlim hwire hadv =>
       rw [hadv, fwdAdv_seq, fwdAdv_origin]
       exact Nat.le_trans (hI.flight _ hm) (seq_step_mono s op _)
     | wdr hop ha hcidr hd hadv =>
@@ -415,7 +415,9 @@ theorem C14_renews (mh : Nat) (peers : List Node) (self frm clock : Nat) (a : Ad
   rw [if_neg hacc.1]
   dsimp only
   rw [if_neg hacc.2.1, if_neg (by simp [hwd]), if_neg hacc.2.2]
-  split <;> exact List.mem_append_left _ hy
+  split
+  · exact List.mem_append_left _ hy
+  · split <;> exact List.mem_append_left _ hy
 
 /-! ### refutation (open findings C14-replay-key-collision, C14-replay-sequence-blocks-refresh) -/
 
